@@ -314,3 +314,75 @@ def c08(tier, seed, only=None):
 
 
 REGISTRY.update({"C02": c02, "C04": c04, "C10": c10, "C09": c09, "C08": c08})
+
+
+# ------------------------------------------------------------------ C11 / C12 / C13
+FT = "vx.monitors.features."
+
+
+def c11(tier, seed, only=None):
+    t0 = time.time()
+    mons = [FT + "ErrorsContained"]
+    jobs = []
+    for s in gen.fx_all(tier):
+        jobs.append(job(s, dict(horizon=40, render=True), mons))
+        if tier != "quick" or s.meta.get("lang") == "yaql":
+            jobs.append(job(s, dict(horizon=40, render=True, pause=1, resume=1, cancel=1, dev=3), mons))
+    jobs = _filter(jobs, only)
+    results = runner.run_jobs(jobs, seed=seed)
+    rule = (
+        "one host definition per expression-bearing position (13) x failure kind (missing key, wrong type, "
+        "unknown function, zero division[thorough], undefined variable at a join, failure on a later loop "
+        "iteration) x {YAQL, Jinja}; all interleavings of the host (a->b->c beside z->y) x {succeeded, "
+        "failed}; plus deviation-bounded histories with pause/resume/cancel; oracle at the step that "
+        "evaluates the position and at every later step"
+    )
+    return runner.finish("C11", tier, seed, MC, results, rule, t0, mons)
+
+
+def c12(tier, seed, only=None):
+    t0 = time.time()
+    mons = [FT + "ItemsWindow"]
+    jobs = []
+    for s in gen.f4_all(tier):
+        cfg = dict(horizon=60, pause=1, resume=1, cancel=1)
+        if gen.is_big(s):
+            cfg["dev"] = 3 if tier == "quick" else 5
+        jobs.append(job(s, cfg, mons))
+    for s in gen.f4_result(tier):
+        jobs.append(job(s, dict(horizon=60), [FT + "ItemsResult"]))
+    for s in gen.f3_all(names=[n for n in gen.f3_fixture_names() if "items" in n]):
+        jobs.append(job(s, dict(horizon=80, dev=2 if tier == "quick" else 3, pause=1, resume=1, cancel=1), mons))
+    jobs = _filter(jobs, only)
+    results = runner.run_jobs(jobs, seed=seed)
+    rule = (
+        "n in 0..3(4) items x concurrency {absent, 1, 2, n+1, expression, <=0 via expression} x placement "
+        "(alone, followed, beside a sibling, remediated, join target, split target) x item outcome vectors "
+        "x all interleavings of item reports with dispatch x <=1 pause/resume/cancel; harness-side "
+        "book-keeping per task execution (offered once, in order, window, drain, status, result order)"
+    )
+    return runner.finish("C12", tier, seed, MC, results, rule, t0, mons + [FT + "ItemsResult"])
+
+
+def c13(tier, seed, only=None):
+    t0 = time.time()
+    mons = [FT + "RetryBounded"]
+    jobs = []
+    for s in gen.f5_all(tier):
+        jobs.append(job(s, dict(horizon=60), mons))
+        jobs.append(job(s, dict(horizon=60, pause=1, resume=1, cancel=1, dev=3 if tier == "quick" else 5), mons))
+    for s in gen.f3_all(names=[n for n in gen.f3_fixture_names() if "retry" in n]):
+        jobs.append(job(s, dict(horizon=100, dev=2 if tier == "quick" else 3), mons))
+    jobs = _filter(jobs, only)
+    results = runner.run_jobs(jobs, seed=seed)
+    rule = (
+        "retry count {0,1,2,expression} x condition {absent, failed, succeeded, completed, result test} x "
+        "delay {absent, literal, expression} x retry command; placed in a sequence, beside a sibling, on a "
+        "join, in a loop, on a with-items task; all outcome sequences per attempt and sibling interleavings; "
+        "reference decides each retry, engine must agree; retried attempts must leave contexts, staging "
+        "and transitions untouched"
+    )
+    return runner.finish("C13", tier, seed, MC, results, rule, t0, mons)
+
+
+REGISTRY.update({"C11": c11, "C12": c12, "C13": c13})
